@@ -785,7 +785,7 @@ def run(ctx: Ctx):
     exhaustive(ctx, ["wca", "wca"], "sync", 150, policy=["always", "B"])
     exhaustive(ctx, ["wca", "wra", "rd"], "sync", 300, policy=["kth", 1, "K"], bound=1, use_keys=False)
     exhaustive(ctx, ["wca", "wca", "wca"], "sync", 400, policy=["kth", 2], bound=1, use_keys=False)
-    generate(ctx, ctx.n(3000, 7000), rng)
+    generate(ctx, ctx.n(2600, 7000), rng)
     malformed(ctx, rng.fork(3), ctx.n(60, 600))
     if ctx.tier == "thorough":
         # exhaustive at line granularity (every interleaving of the source lines of the anchored functions; a state
